@@ -2608,12 +2608,42 @@ class _Reserved:
                     return True
         return False
 
+    scalar_only = False       # analyse only the paths on which the declared object is NOT an array (n_dim empty)
+
+    def decide(self, test, f):
+        """truth of a test under the assumption `<array type>['n_dim']` is empty, or None when it does not follow"""
+        if not self.scalar_only:
+            return None
+        params = {a.arg for a in f.args.args}
+
+        def is_ndim(ie):
+            return isinstance(ie, ast.Subscript) and isinstance(ie.slice, ast.Constant) and ie.slice.value == 'n_dim' and \
+                isinstance(ie.value, ast.Name) and ie.value.id in params
+
+        def leaf(e):
+            if isinstance(e, ast.Name):
+                vals = _local_assignments(f).get(e.id, [])
+                if vals and all(v is not None and is_ndim(_inline(v, f)) for v in vals):
+                    return []              # every assignment of this local is the array type's n_dim
+                return NotImplemented
+            if isinstance(e, ast.Subscript) and is_ndim(_inline(e, f)):
+                return []
+            return NotImplemented
+        try:
+            return bool(Evaluator({}, arith=False, leaf=leaf, funcs={'len': len, 'bool': bool}).ev(test))
+        except AnalysisError:
+            return None
+
     def inline_check(self, st, f, p):
         """`if <...>.is_verilog_reserved(p): raise ...` written out instead of check_decl"""
         al = self.aliases(f, p)
         if not isinstance(st, ast.If):
             return False
         t, pos = st.test, True
+        if isinstance(t, ast.BoolOp) and isinstance(t.op, ast.And):
+            rest = [v for v in t.values if self.decide(v, f) is not True]
+            if len(rest) == 1:
+                t = rest[0]            # the other conjuncts hold on the analysed (scalar) paths
         while isinstance(t, ast.UnaryOp) and isinstance(t.op, ast.Not):
             t, pos = t.operand, not pos
         if not (isinstance(t, ast.Call) and norm(t.func).split('.')[-1] in ('is_verilog_reserved', '_is_verilog_reserved')
@@ -2632,6 +2662,14 @@ class _Reserved:
         for st in stmts:
             if isinstance(st, ast.If) and self.inline_check(st, f, p):
                 cov = True
+                continue
+            if isinstance(st, ast.If) and self.decide(st.test, f) is not None:
+                ok1, s1 = self.walk(st.body if self.decide(st.test, f) else st.orelse, f, p, (cov, used))
+                if not ok1:
+                    return False, None
+                if s1 is None:
+                    return True, None
+                cov, used = s1
                 continue
             if isinstance(st, ast.If):
                 used = used or self.used(st.test, p, f)
@@ -2799,6 +2837,38 @@ def rule_reserved(repo):
                       f"SystemVerilog keyword (e.g. a wire called `reg`) is declared as `logic [7:0] reg;`", f.lineno)
         if n == 0:
             raise AnalysisError(f"anchor vanished: no declaration generators in the {backend} back-end")
+        # the instance name of a scalar sub-component is its own attribute name (arrays are instantiated as <id>__<idx>,
+        # port wires as <id>__<port>: suffixed, cannot be keywords)
+        rs = _Reserved(repo, files, own)
+        rs.scalar_only = True
+        subs = [(m, c, f) for m, c, f in rs.own if f.name == 'rtlir_tr_subcomp_decl']
+        if len(subs) != 1:
+            raise AnalysisError(f"anchor vanished: rtlir_tr_subcomp_decl of the {backend} back-end")
+        m, c, f = subs[0]
+        if len(f.args.args) < 3:
+            raise AnalysisError("rtlir_tr_subcomp_decl: signature changed")
+        p = f.args.args[2].arg
+        cons = f"{backend}: rtlir_tr_subcomp_decl checks the instance name of a scalar sub-component"
+        # arrays really are suffixed: the per-element recursion extends the id / index parameter by `__<idx>`
+        rec_ok = False
+        for g in [x for x in ast.walk(f) if isinstance(x, ast.FunctionDef) and x is not f]:
+            lvs = {y.id for x in ast.walk(g) if isinstance(x, (ast.For, ast.comprehension)) for y in ast.walk(x.target)
+                   if isinstance(y, ast.Name)}
+            for call in [x for x in ast.walk(g) if isinstance(x, ast.Call) and isinstance(x.func, ast.Name) and x.func.id == g.name]:
+                for a in call.args:
+                    if _names_of_raw(a) & lvs and any(isinstance(k, ast.Constant) and isinstance(k.value, str) and '_' in k.value
+                                                      for k in ast.walk(a)):
+                        rec_ok = True
+        if not rec_ok:
+            r.bad(m, qualname(f), cons, "the per-element recursion no longer appends `__<index>` to the instance name of an array "
+                  "element: element names are not provably suffixed", f.lineno)
+        elif rs.covered(f, p):
+            r.ok(m, qualname(f), cons)
+        else:
+            r.bad(m, qualname(f), cons,
+                  f"for a single (non-array) sub-component the attribute name `{p}` becomes the instance name un-suffixed and no "
+                  f"path checks it against the reserved words: `s.buf = Child()` is emitted as `Child_noparam buf ( ... );`, "
+                  f"`buf` being a Verilog keyword", f.lineno)
     # ---- behavioural visitors: block labels, loop variables, temporaries
     vb = [f for f in scope if f.startswith(VTRANS + 'behavioral/')]
     yb = [f for f in scope if f.startswith(YTRANS + 'behavioral/')]
@@ -2825,7 +2895,7 @@ def rule_reserved(repo):
                       f"SystemVerilog keyword (e.g. `reg`) is emitted as `begin : reg`", f.lineno)
         if backend == 'verilog' and n < 2:
             raise AnalysisError("anchor vanished: no visitor emitting node.name found in the SystemVerilog behavioural translator")
-    r.require_floor(9)
+    r.require_floor(13)
     return r
 
 
@@ -3026,6 +3096,14 @@ MUTANTS = [
        '        filename = f"{s.translator._top_module_name}__pickled"', 'R-C13-name'),
     _m('module-name-for-file-from-class-name', VPASS, "      module_name = s.translator._top_module_full_name",
        "      module_name = s.translator._top_module_name", 'R-C13-name'),
+    _m('verilog-scalar-instance-name-not-checked', VSL4,
+       "    if not c_array_type['n_dim']:\n      s.check_decl( c_id, f\"Note: {c_id} is a sub-component of {m}\" )\n", "",
+       'R-C13-reserved'),
+    _m('yosys-scalar-instance-name-not-checked', YSL4,
+       "    if not c_n_dim:\n      s.check_decl( c_id, f\"Note: {c_id} is a sub-component of {m}\" )\n", "", 'R-C13-reserved'),
+    _m('verilog-instance-name-checked-only-for-arrays', VSL4,
+       "    if not c_array_type['n_dim']:\n      s.check_decl( c_id,", "    if c_array_type['n_dim']:\n      s.check_decl( c_id,",
+       'R-C13-reserved'),
     # --- R-C13-state
     _m('translator-state-initialised-once', VTRANSLATOR,
        "      s._mangled_placeholder_top_module_name = ''\n      s._included_pickled_files = set()\n",
@@ -3188,6 +3266,15 @@ EQUIV = [
     _m('output-file-name-via-helper-local', VPASS, '        filename = f"{module_name}__pickled"',
        '        stem = module_name\n        filename = stem + "__pickled"', None),
     _m('class-test-with-inspect', RUTIL, "    if isinstance(obj, type):", "    if inspect.isclass(obj):", None),
+    _m('verilog-scalar-instance-check-written-out', VSL4,
+       "    if not c_array_type['n_dim']:\n      s.check_decl( c_id, f\"Note: {c_id} is a sub-component of {m}\" )\n",
+       "    n_dim = c_array_type['n_dim']\n    if not n_dim and s.is_verilog_reserved( c_id ):\n"
+       "      raise VerilogReservedKeywordError( c_id, f\"Note: {c_id} is a sub-component of {m}\" )\n", None),
+    _m('yosys-scalar-instance-check-len-form', YSL4,
+       "    if not c_n_dim:\n      s.check_decl( c_id,", "    if len( c_n_dim ) == 0:\n      s.check_decl( c_id,", None),
+    _m('verilog-scalar-instance-check-unconditional', VSL4,
+       "    if not c_array_type['n_dim']:\n      s.check_decl( c_id, f\"Note: {c_id} is a sub-component of {m}\" )\n",
+       "    s.check_decl( c_id, f\"Note: {c_id} is a sub-component of {m}\" )\n", None),
     _m('local-renamed-in-unique-name', VUTIL, "  param_name = param_hash.hexdigest()\n  return comp_name + \"__\" + param_name",
        "  digest = param_hash.hexdigest()\n  return comp_name + \"__\" + digest", None),
 ]
